@@ -95,6 +95,7 @@ checks = {
         mc = [dict(name='C06_env', progs=C.fam(wait), plans=[[]], alphabet=alpha, k=4, invariants=INV, overrides=ov, extra_defs=xd),
               dict(name='C06_awaitables', progs=C.fam(['W1', 'W3', 'W4']), plans=[[]], alphabet=['complete', 'pause', 'play', 'kill'], k=4, invariants=INV)]
         rp = [dict(name='C06_env', progs=C.fam(['P03', 'P05', 'P10']), plans=[[]], alphabet=alpha, k=3, overrides=ov, extra_defs=xd),
+              dict(name='C06_wake4', progs=C.fam(['P03']), plans=[[]], alphabet=['resume', 'pause', 'play'], k=4, overrides=ov, extra_defs=xd),
               dict(name='C06_awaitables', progs=C.fam(['W1', 'W3']), plans=[[]], alphabet=['complete', 'pause', 'play', 'kill'], k=3)]
     else:
         mc = [dict(name='C06_env', progs=C.fam(wait), plans=[[]], alphabet=alpha, k=6, invariants=INV, overrides=ov, extra_defs=xd),
@@ -115,13 +116,18 @@ checks = {
     pfault = [[]] + [[pe(h, o, 'fault', 'X')] for h in ('on_pausing', 'on_paused', 'on_playing') for o in (1, 2)]
     saves = [[]] + [[pe('cb_entered', o, 'save')] for o in (1, 2, 3)]
     rkn = {'medium': 'none', 'listener': False}
+    # a pause requested by user code while the Wait command is being obeyed (before, during and after the state switch)
+    hp = core_check.reentrant_plans(['on_wait', 'on_exit_running', 'cb_entering', 'cb_exiting', 'on_waiting', 'cb_entered'], [('pause', 'p2')], occs=(1, 2))
     if tier == 'quick':
         mc = [dict(name='C13_resume', progs=C.fam(progs), plans=[[]], alphabet=['resume'], k=3, invariants=INV, overrides=ov, extra_defs=xd),
               dict(name='C13_env', progs=C.fam(progs), plans=[[]], alphabet=ppr, k=3, invariants=INV[:1] + INV[2:], overrides=ov, extra_defs=xd)]
         rp = [dict(name='C13_resume', progs=C.fam(progs), plans=[[]], alphabet=['resume'], k=3, overrides=ov, extra_defs=xd),
               dict(name='C13_env', progs=C.fam(['P04', 'P14', 'P20', 'P21', 'P22']), plans=[[]], alphabet=ppr, k=2, overrides=ov, extra_defs=xd),
               dict(name='C13_pausefault', progs=C.fam(['P04', 'P14', 'P22']), plans=pfault, alphabet=['pause', 'play'], k=2),
-              dict(name='C13_restore', progs=C.fam(['P04', 'P20', 'P24']), plans=saves, alphabet=['restore'], k=1, run_kw=rkn)]
+              dict(name='C13_restore', progs=C.fam(['P04', 'P20', 'P24']), plans=saves, alphabet=['restore'], k=1, run_kw=rkn),
+              dict(name='C13_wake', progs=C.fam(['P03', 'P21']), plans=[[]], alphabet=ppr, k=3),
+              dict(name='C13_hookpause', progs=C.fam(['P03', 'P21', 'P22']), plans=hp, alphabet=['play', 'resume'], k=2)]
+        mc.append(dict(name='C13_hookpause', progs=C.fam(['P03', 'P21', 'P22']), plans=hp, alphabet=['play', 'resume'], k=3, invariants=INV[:1] + INV[2:]))
         mc.append(dict(name='C13_pausefault', progs=C.fam(['P04', 'P14', 'P22']), plans=pfault, alphabet=['pause', 'play'], k=2, invariants=INV[:1]))
         mc.append(dict(name='C13_restore', progs=C.fam(progs), plans=saves, alphabet=['save', 'restore', 'resume'], k=3, invariants=INV[:1] + ['C08_Equivalent']))
     else:
@@ -130,7 +136,9 @@ checks = {
         rp = [dict(name='C13_resume', progs=C.fam(progs), plans=[[]], alphabet=['resume'], k=4, overrides=ov, extra_defs=xd),
               dict(name='C13_env', progs=C.fam(progs), plans=[[]], alphabet=ppr, k=3, overrides=ov, extra_defs=xd),
               dict(name='C13_pausefault', progs=C.fam(['P04', 'P14', 'P20', 'P22']), plans=pfault, alphabet=['pause', 'play', 'resume'], k=3),
-              dict(name='C13_restore', progs=C.fam(progs), plans=saves, alphabet=['restore', 'resume'], k=2, run_kw=rkn)]
+              dict(name='C13_restore', progs=C.fam(progs), plans=saves, alphabet=['restore', 'resume'], k=2, run_kw=rkn),
+              dict(name='C13_hookpause', progs=C.fam(['P03', 'P06', 'P10', 'P13', 'P21', 'P22']), plans=hp, alphabet=['play', 'resume', 'pause'], k=3)]
+        mc.append(dict(name='C13_hookpause', progs=C.fam(['P03', 'P06', 'P10', 'P13', 'P21', 'P22']), plans=hp, alphabet=['play', 'resume', 'pause'], k=4, invariants=INV[:1] + INV[2:]))
         mc.append(dict(name='C13_pausefault', progs=C.fam(progs), plans=pfault, alphabet=['pause', 'play', 'resume'], k=3, invariants=INV[:1]))
         mc.append(dict(name='C13_restore', progs=C.fam(progs), plans=saves, alphabet=['save', 'restore', 'resume'], k=4, invariants=INV[:1] + ['C08_Equivalent']))''',
         extra_assume=['generated continuation functions record (args, kwargs) exactly as received; values are small ints / None / short strings'],
